@@ -133,7 +133,12 @@ func TemplateExecute(t *template.Template, w io.Writer, data any) error {
 		if !strings.HasPrefix(action, ".") {
 			return errors.New("template: unsupported action " + action)
 		}
-		io.WriteString(w, vars[action[1:]])
+		if v, ok := vars[action[1:]]; ok {
+			io.WriteString(w, v)
+		} else {
+			// what text/template prints for a key that is missing from a map
+			io.WriteString(w, "<no value>")
+		}
 		text = text[i+j+2:]
 	}
 	io.WriteString(w, text)
